@@ -371,6 +371,10 @@ fn ordered_pairs(tier: Tier, st: &mut Stats) {
                     run_fresh(&ft, s, false).ok().map(|r| r.tokens)
                 })
                 .collect();
+            // a worker of ANOTHER dictionary in the same thread (the twin with the last two
+            // categories declared in the other order) handles s2 right before this worker does
+            let nt = u.swapped_categories().and_then(|v| v.build().ok()).and_then(|(d, _)| make_tokenizer(d, opts).ok());
+            let mut nw = nt.as_ref().map(|t| t.new_worker());
             for s1 in &sentences {
                 let mut w = t.new_worker();
                 if guard(|| {
@@ -389,6 +393,10 @@ fn ordered_pairs(tier: Tier, st: &mut Stats) {
                     let got = guard(|| {
                         w.reset_sentence(s1);
                         w.tokenize();
+                        if let Some(nw) = nw.as_mut() {
+                            nw.reset_sentence(s2);
+                            nw.tokenize();
+                        }
                         w.reset_sentence(s2);
                         w.tokenize();
                         read_tokens(&w)
@@ -513,7 +521,7 @@ pub fn run(tier: Tier) -> i32 {
     ordered_pairs(tier, &mut st);
     schedules(tier, &mut st, &universes);
     free_running(tier, &mut st, &universes);
-    rep.rule = "E2: state = operation history of one worker over {reset_sentence(s) for 6 sentences, tokenize} and over {reset_sentence(s) for 4 sentences, tokenize, init_connid_counter}; all histories up to the depth, each re-executed on a fresh real worker and compared with the reference state machine (sentence, tokenized?). E2b: all ordered pairs (s1, s2) of sentences <= 3 chars on one worker over the lexicon/cost and unknown-word universes. E3: state = schedule; all interleavings of 2-3 real threads (own worker each, one shared tokenizer) at the instrumented yield points with at most P preemptions; per-thread observations must equal the sequential ones. distinct = distinct observed token sequences".into();
+    rep.rule = "E2: state = operation history of one worker over {reset_sentence(s) for 6 sentences, tokenize} and over {reset_sentence(s) for 4 sentences, tokenize, init_connid_counter}; all histories up to the depth, each re-executed on a fresh real worker and compared with the reference state machine (sentence, tokenized?). E2b: all ordered pairs (s1, s2) of sentences <= 3 chars on one worker over the lexicon/cost and unknown-word universes, with a worker of another dictionary (same thread) handling s2 in between. E3: state = schedule; all interleavings of 2-3 real threads (own worker each, one shared tokenizer) at the instrumented yield points with at most P preemptions; per-thread observations must equal the sequential ones. distinct = distinct observed token sequences".into();
     rep.bounds = json!({"history_depth": tier.pick(5, 7), "ops": 7, "sentences": SENTENCES, "max_preemptions": tier.pick(2, 3), "threads": "2-3"});
     rep.assumptions = vec![
         "interleavings are explored at the instrumented yield points (entry/exit and inside reset_sentence/tokenize, every lattice position); between them the code performs no synchronisation".into(),
